@@ -211,6 +211,7 @@ func (r *SimRunner) Run(t *task.Task) error {
 	}
 
 	t.Start = time.Now()
+	w.writeLog(r.JobID, t.Name)
 	r.notify(t)
 	w.mu.Lock()
 	rec.Notified = true
@@ -381,6 +382,7 @@ type World struct {
 	violations     []Violation
 	unknownRunners []*SimRunner // createTaskRunner calls for jobs the harness did not (yet) register
 
+	LogDir  string // directory of the real FileOutputStore, if any
 	handler http.Handler
 	token   string
 
